@@ -27,7 +27,7 @@ theorem pathOfList_none_of_not_mem {x : Nat} : ∀ (ks : List HTree) (j : Nat), 
     pathOfList x j ks = none
   | [], _, _ => rfl
   | k :: ks, j, h => by
-    simp only [handlesList_cons, List.mem_append, not_or] at h
+    simp only [fi_handlesList_cons, List.mem_append, not_or] at h
     simp only [pathOfList, pathOf_none_of_not_mem h.1, pathOfList_none_of_not_mem ks (j + 1) h.2]
 
 /-! ### Erasing a replaced subtree -/
@@ -38,7 +38,7 @@ mutual
       erase (mapAt nd (fun _ => S') r) = scopeModifyAt (fun _ => erase S') (erase r) top
     | .node h v ks, top, hnd, hp => by
       simp only [pathOf] at hp
-      simp only [handles_node, List.nodup_cons] at hnd
+      simp only [fi_handles_node, List.nodup_cons] at hnd
       by_cases hh : h = nd
       · rw [if_pos hh] at hp
         cases hp
@@ -57,7 +57,7 @@ mutual
         (eraseList ks).modify i (fun k => scopeModifyAt (fun _ => erase S') k p)
     | [], _, _, _, hp => by simp [pathOfList] at hp
     | k :: ks, j, q, hnd, hp => by
-      simp only [handlesList_cons, List.nodup_append] at hnd
+      simp only [fi_handlesList_cons, List.nodup_append] at hnd
       simp only [pathOfList] at hp
       cases hk : pathOf nd k with
       | some p =>
@@ -143,7 +143,7 @@ theorem at?_graft (nd : Nat) (S' : HTree) : ∀ (top : Path) (r : HTree), (handl
     cases r with
     | node h v ks =>
       simp only [pathOf] at hp
-      simp only [handles_node, List.nodup_cons] at hnd
+      simp only [fi_handles_node, List.nodup_cons] at hnd
       by_cases hh : h = nd
       · rw [if_pos hh] at hp; cases hp
       · rw [if_neg hh] at hp
@@ -171,7 +171,7 @@ theorem fpxr_root_unique : ∀ {L : List HTree}, (handlesList L).Nodup → ∀ {
     ∀ {h : Nat}, h ∈ handles y → h ∈ handles r → y = r
   | [], _, _, _, hy, _, _, _, _ => by cases hy
   | a :: L, hnd, y, r, hy, hr, h, h1, h2 => by
-    simp only [handlesList_cons, List.nodup_append] at hnd
+    simp only [fi_handlesList_cons, List.nodup_append] at hnd
     rcases List.mem_cons.mp hy with rfl | hy' <;> rcases List.mem_cons.mp hr with rfl | hr'
     · rfl
     · exact absurd rfl (hnd.2.2 h h1 h (ftrav_mem_handlesList L r h hr' h2))
